@@ -339,6 +339,16 @@ theorem verifyDocument_entry_in_tx (hs : Hs D) (sigOk : Client.State D → Bool)
     · exact Or.inr hc
   · exact Or.inr hc
 
+/-- REPAIRED (was the finding `C19:proof:panic:encoded-row-cut+hvalue+eh`: the unchecked slice expressions
+`proof.EncodedDocument[voff:]` panicked; the model answered `none` = panic).  An `EncodedDocument` shorter than one
+of the two offsets at which it is sliced is refused with `ErrInvalidProof`, for every proof (in particular when the
+sender has adjusted the entry's `HValue` and the header's `Eh` to the cut row) and every known state: the verifying
+client returns an error, it neither panics nor accepts. -/
+theorem verifyDocument_short_row_rejected (hs : Hs D) (sigOk : Client.State D → Bool) (encKey : Bytes)
+    (known : Client.State D) (p : Proof D) :
+    verifyDocument hs sigOk encKey .outOfRange known p = some (.error .invalidProof) :=
+  VerifyAux.verifyDocument_outOfRange hs sigOk encKey known p
+
 /-- The header binding is by id AND accumulated hash on BOTH sides: a shipped header that only carries the id of the
 source header is refused (the decision the seeded change c19-a weakened). -/
 theorem bound_requires_alh (xId : Nat) (xAlh : D) (sId tId : Nat) (sAlh tAlh : D)
